@@ -857,5 +857,21 @@ def ref_Z(obj, f: float, leaf_cache: Optional[dict] = None):
     return z, kappa[0]
 
 
+def all_elements(circuit_or_connection) -> list:
+    """Every element incl. those nested in container sub-circuits (public API only)."""
+    from pyimpspec.circuit.base import Container
+
+    out = []
+    queue = list(circuit_or_connection.get_elements(recursive=True))
+    while queue:
+        el = queue.pop(0)
+        out.append(el)
+        if isinstance(el, Container):
+            for sub in el.get_subcircuits().values():
+                if sub is not None:
+                    queue.extend(sub.get_elements(recursive=True))
+    return out
+
+
 def top_connection(circuit):
     return circuit.get_connections(recursive=False)[0]
